@@ -265,7 +265,7 @@ def build(repo):
                         it.seq().len() == options@.len(),
                         forall|j: int| 0 <= j < it.seq().len() ==> *(#[trigger] it.seq()[j]) == options@[j],
                         strs_view(vec@) == texts_of(vals_view(*options).take(it.index() as int)),''', iter_name='it')
-    u.before(GP, r'if let Ok\(seg\) = str_from_utf8\(option\)', '''                    let ghost j0 = it.index() as int;
+    u.loop_body_start(GP, 0, '''                    let ghost j0 = it.index() as int;
                     let ghost vec0 = vec@;
                     proof { assert(*option == options@[j0]); }''')
     u.at_block_end(GP, r'for option in', '''                    proof {
